@@ -145,6 +145,25 @@ def run(check):
         steps = [Step("loop", "foreach", sub=sub, items=Expr(In("items")), parallelism=rng.choice([1, 2]))]
         outs = {"success": {"d": Expr(Ref("loop", "outputs", "success", "data"))}, "failed": {"e": Expr(Ref("loop", "failed", "error"))}}
         gs.append({"program": Program(steps, outs, gen.BASE_INPUT), "shape": "foreach-sub-with-several-outputs"})
+    # two fields of one stage that both carry a tagged value at the same path, with different kinds of dependency
+    from .c07 import C07_INPUT
+    pairs = [("wait_for", "closure_wait_timeout"), ("closure_wait_timeout", "wait_for"), ("stop_if", "wait_for"), ("wait_for", "stop_if"), ("closure_wait_timeout", "stop_if"),
+             ("items", "parallelism"), ("parallelism", "items"), ("enabled", "enabled")]
+    for k, (f_wait, f_soft) in enumerate(pairs):
+        g_ = gen.plugin_step("g", Expr(In("tag")), extra_input={"n": Expr(In("n")), "b": True, "a": [{"tag": "i0"}]})
+        val = {"wait_for": Ref("g", "outputs", "success"), "closure_wait_timeout": Ref("g", "outputs", "success", "n"), "stop_if": Ref("g", "outputs", "success", "b"),
+               "enabled": Ref("g", "outputs", "success", "b"), "items": Ref("g", "outputs", "success", "a"), "parallelism": Ref("g", "outputs", "success", "n")}
+        if f_wait in ("items", "parallelism"):
+            t = Step("loop", "foreach", sub=gen.sub_program("sub.yaml", 1), items=[{"tag": "i0"}])
+            outs = {"success": {"d": Expr(Ref("loop", "outputs", "success", "data"))}}
+        else:
+            t = gen.plugin_step("b", Expr(In("tag")))
+            outs = {"success": {"b": gen.tagref("b")}}
+        t.fields[f_wait] = Opt(val[f_wait], True)
+        if f_soft != f_wait:
+            t.fields[f_soft] = Opt(val[f_soft], False)
+        gs.append({"program": Program([g_, t], outs, C07_INPUT),
+                   "shape": "two-tagged-fields-of-one-stage/%s+%s" % (f_wait, f_soft)})
     items, idx = [], 0
     for gi, g in enumerate(gs):
         prog = g["program"]
